@@ -11,7 +11,7 @@ from .. import refsnmp as S
 from .. import scen
 from ..loop import EventCapExceeded, SimDeadlock, keyed
 from ..runner import rng_for
-from ..world import Meter, WorkBudgetExceeded, World, agent_for, oid_t, to_ref
+from ..world import X690_WATCH, Meter, WorkBudgetExceeded, World, agent_for, install_x690_watch, oid_t, to_ref
 
 ID = "C20"
 LEVEL = "fault_enumeration"
@@ -171,8 +171,7 @@ class Env:
         self.ccred, self.acred, self.op, self.k, self.where, self.special = SCENARIOS[scenario]
         self.w = World(event_cap=3_000_000)
         self.mem = mem
-        self.indef_hits = 0
-        self._patch_x690()
+        install_x690_watch()
         self.trap_got: List[Any] = []
         if self.special == "trap":
             from puresnmp.api.raw import register_trap_callback
@@ -185,27 +184,11 @@ class Env:
                     self.trap_got.append("unreadable: %s" % type(e).__name__)
             register_trap_callback(cb, TRAP_LISTEN[0], TRAP_LISTEN[1], V2Ccred("public"), loop=self.w.loop)
 
-    def _patch_x690(self) -> None:
-        """Observe (never alter) x690's TLV walk: note when it meets an indefinite length without end-of-contents."""
-        import x690.types as xt
-        import x690.util as xu
-        orig = getattr(xu.get_value_slice, "_verif_orig", xu.get_value_slice)
-        env = self
-
-        def get_value_slice(data: bytes, index: int = 0) -> Any:
-            if index + 1 < len(data) and data[index + 1] == 0x80 and data.find(b"\x00\x00", index) == -1:
-                env.indef_hits += 1
-            return orig(data, index)
-        get_value_slice._verif_orig = orig  # type: ignore[attr-defined]
-        xt.get_value_slice = get_value_slice
-        xu.get_value_slice = get_value_slice
+    @property
+    def indef_hits(self) -> int:
+        return X690_WATCH["indef_no_eoc"]
 
     def close(self) -> None:
-        import x690.types as xt
-        import x690.util as xu
-        orig = getattr(xu.get_value_slice, "_verif_orig", xu.get_value_slice)
-        xt.get_value_slice = orig
-        xu.get_value_slice = orig
         self.w.close()
 
     # -- metered execution -------------------------------------------------------------
@@ -231,6 +214,9 @@ class Env:
                 status, val = "base", e
         finally:
             events = Meter.stop()
+            if Meter.tripped and status != "budget":
+                # the budget exception was swallowed on its way (a Task wrapper, an `except BaseException`)
+                status, val = "budget", WorkBudgetExceeded(events)
             if self.mem:
                 peak = tracemalloc.get_traced_memory()[1] - base_mem
                 tracemalloc.stop()
